@@ -68,7 +68,8 @@
      `evaluate_all` forces every thunk).
      NOT proved: the failure direction on fragment v2 (scoped variables: a read before the definition and a second
      definition of the same (node, name) are order dependent / deferred to the cells); "lazy IS Err from some fuel on"
-     — false in the model: lazy execution runs the statements after the failure point, which may diverge (K2).
+     — FALSE in the model: lazy execution runs the statements after the failure point, which may diverge
+     (strict_fail_lazy_diverges_k2).
    * building blocks named in DESIGN.md §7 C02 — the two interpreters' copies of capture binding, regex-capture
      lookup and scan-arm selection compute the same thing, and the lazy store's forcing discipline (a thunk is
      forced at most once, every reader sees one value).
@@ -261,9 +262,10 @@ Proof. exact @strict_fail_lazy_fail_lemma. Qed.
 
 (* ... with, in addition, the hypotheses of the no-panic theorem of the lazy interpreter (lazy_exec_no_panic, Props/C05.v)
    lazy execution FAILS (returns Err), unless the model runs out of fuel.  (A sharper "from some fuel on the lazy run
-   IS Err" is not provable and not true of the model: after the point where strict execution stopped, lazy execution
-   keeps executing the statements the strict run never reached, and these need not terminate — a recursive attribute
-   shorthand, known finding K2, makes the model run out of every fuel and the implementation overflow its stack.) *)
+   IS Err" is FALSE of the model: after the point where strict execution stopped, lazy execution keeps executing the
+   statements the strict run never reached, and these need not terminate — strict_fail_lazy_diverges_k2 below: a
+   recursive attribute shorthand, known finding K2, makes the model run out of EVERY fuel; the implementation
+   overflows its stack.) *)
 Theorem strict_fail_lazy_err_partial :
   forall {rx : Type} (sok : N -> Prop) t fl supplied (regexes : list rx) find call (okfn : ident -> Prop) fuel ms g0 e,
   (forall f, okfn f -> pure_fn call f) ->
@@ -316,6 +318,15 @@ Example strict_fail_lazy_ok_undefined_edge :
   err_cause (fe_strict fe5_file) = Some EUndefinedEdge /\
   exists g, lgraph_of (fe_lazy fe5_file) = Ok g /\ length g = 2%nat.
 Proof. split; [exact fe5_file_ok|]. split; [exact fe5_strict|]. eexists. split; [exact fe5_lazy|reflexivity]. Qed.
+
+(* "lazy execution returns Err" cannot be concluded without a termination hypothesis: a program of the fragment
+   (`attribute a = x => a = x` and `let y = (plus "a" 1)  node n  attr (n) a = 1`) on which strict execution fails at the
+   first statement while lazy execution goes on to the recursive shorthand (K2) and runs out of every fuel *)
+Example strict_fail_lazy_diverges_k2 :
+  file_ok fe_okfn fe6_file (f_stanzas fe6_file) ex_matches /\
+  err_cause (fe_strict fe6_file) = Some EExpectedInteger /\
+  forall lfuel, run_lazy k7_tree fe6_file config0 [[]] None ([] : list regex) rx_captures fe_call lfuel (lmatches_of ex_matches) [] = OutOfFuel.
+Proof. split; [exact fe6_file_ok|]. split; [exact fe6_strict|exact fe6_lazy_diverges]. Qed.
 
 (* the hypotheses of strict_fail_lazy_err_partial are satisfiable together (program (i)) *)
 Example strict_fail_lazy_err_nonvacuous :
